@@ -46,7 +46,7 @@ def generate(sigs):
            '//go:noinline', 'func work(i int) int {', '\tif i < -10000 {', '\t\tfmt.Println("never")', '\t}', '\treturn i', '}', '']
     drv = ['//go:build go1.18', '', '// Package zoodrv: GENERATED driver of the C01 signature zoo.', 'package zoodrv', '',
            'import (', '\t"fmt"', '', '\tmocker "github.com/tencent/goom"', '\t"github.com/tencent/goom/zzverif/zoo"', ')', '',
-           'var _ = fmt.Sprint', '', 'type sigCase struct {', '\tdesc  string', '\tapply func(b *mocker.Builder, seen *bool)',
+           'var _ = fmt.Sprint', '', 'type sigCase struct {', '\tdesc  string', '\tvariadic bool', '\tapply func(b *mocker.Builder, seen *bool)',
            '\tstub  func(b *mocker.Builder)', '\tcall  func(form string, want int) string // want: 0 orig, 1 callback, 2 stub', '}', '', 'var cases = []sigCase{']
     for k, s in enumerate(sigs):
         ps, rs, var = s["params"], s["results"], s["variadic"]
@@ -69,7 +69,7 @@ def generate(sigs):
                    (["\treturn " + orig_ret] if rs else []) + ["}", ""]
         # callback
         checks = " && ".join([eq(t, "p%d" % (i + 1), i + 1) for i, t in enumerate(ps)] +
-                             (["(len(vs) == 2 && vs[0] == 71 && vs[1] == 72)"] if var else [])) or "true"
+                             (["vsOK(vs)"] if var else [])) or "true"
         cb_ret = ", ".join(val(t, 100 + j) for j, t in enumerate(rs))
         stub_ret = ", ".join(val(t, 300 + j) for j, t in enumerate(rs))
         args = ", ".join(val(t, i + 1) for i, t in enumerate(ps))
@@ -82,7 +82,7 @@ def generate(sigs):
         def rescheck(base):
             return " && ".join(eq(t, "r%d" % (j + 1), base + j) for j, t in enumerate(rs)) or "true"
         desc = "func(%s%s) (%s)%s" % (", ".join(ps), (", " if ps else "") + "...int" if var else "", ", ".join(rs), " [tiny body]" if s.get("tiny") else "")
-        drv += ["\t{", '\t\tdesc: %s,' % json_str(desc),
+        drv += ["\t{", '\t\tdesc: %s,' % json_str(desc), "\t\tvariadic: %s," % ("true" if var else "false"),
                 "\t\tapply: func(b *mocker.Builder, seen *bool) {",
                 "\t\t\tb.Func(zoo.T%d).Apply(func(%s) %s {" % (k, plist, rlist),
                 "\t\t\t\t*seen = %s" % checks,
@@ -97,6 +97,8 @@ def generate(sigs):
                 '\t\t\tcase "defer":', "\t\t\t\tfunc() {", "\t\t\t\t\tdefer func() { %szoo.T%d(%s) }()" % (assign, k, args), "\t\t\t\t}()",
                 '\t\t\tcase "go":', "\t\t\t\tdone := make(chan interface{})", "\t\t\t\tgo func() {", "\t\t\t\t\tdefer func() { done <- recover() }()", "\t\t\t\t\t%szoo.T%d(%s)" % (assign, k, args), "\t\t\t\t}()",
                 "\t\t\t\tif e := <-done; e != nil {", "\t\t\t\t\tpanic(e)", "\t\t\t\t}",
+                '\t\t\tcase "novar":', ("\t\t\t\tvmode = 1\n\t\t\t\t%szoo.T%d(%s)\n\t\t\t\tvmode = 0" % (assign, k, ", ".join(val(t, i + 1) for i, t in enumerate(ps)))) if var else "\t\t\t\tpanic(\"not variadic\")",
+                '\t\t\tcase "spread":', ("\t\t\t\tvmode = 2\n\t\t\t\tspreadBuf = append(make([]int, 0, 8), 71, 72)\n\t\t\t\t%szoo.T%d(%sspreadBuf...)\n\t\t\t\tvmode = 0\n\t\t\t\tif spreadBuf[1] != 1072 {\n\t\t\t\t\treturn \"the callback's write into the variadic slice did not reach the caller's slice\"\n\t\t\t\t}" % (assign, k, "".join(val(t, i + 1) + ", " for i, t in enumerate(ps)))) if var else "\t\t\t\tpanic(\"not variadic\")",
                 '\t\t\tcase "deep":', "\t\t\t\tdone := make(chan interface{})", "\t\t\t\tgo func() {", "\t\t\t\t\tdefer func() { done <- recover() }()", "\t\t\t\t\tdeepCall(300, func() { %szoo.T%d(%s) })" % (assign, k, args), "\t\t\t\t}()",
                 "\t\t\t\tif e := <-done; e != nil {", "\t\t\t\t\tpanic(e)", "\t\t\t\t}",
                 "\t\t\t}",
@@ -108,7 +110,13 @@ def generate(sigs):
                 "\t\t\tif !ok {",
                 ('\t\t\t\treturn fmt.Sprintf("results %%v", []interface{}{%s})' % rvars) if rs else '\t\t\t\treturn "results"',
                 "\t\t\t}", '\t\t\treturn ""', "\t\t},", "\t},"]
-    drv += ["}", ""]
+    drv += ["}", "",
+            "// what the callback of a variadic signature must see, per call form: two elements (71, 72); no variadic argument at all",
+            "// (vmode 1): a nil slice; the caller's own slice spread with ... (vmode 2): that very slice (capacity 8), writable through",
+            "var vmode int", "var spreadBuf []int", "",
+            "func vsOK(vs []int) bool {", "\tswitch vmode {", "\tcase 1:", "\t\treturn vs == nil", "\tcase 2:",
+            "\t\tif len(vs) != 2 || cap(vs) != 8 || vs[0] != 71 || vs[1] != 72 {", "\t\t\treturn false", "\t\t}", "\t\tvs[1] = 1072", "\t\treturn true", "\t}",
+            "\treturn len(vs) == 2 && vs[0] == 71 && vs[1] == 72", "}", ""]
     return {"zzverif/zoo/zoo.go": "\n".join(zoo) + "\n", "zzverif/zoodrv/cases_test.go": "\n".join(l for l in drv if l != "") + "\n"}
 
 
